@@ -73,6 +73,10 @@ def run_property(prop, tier, seed):
     ok_tr, msg = D.step_translator()
     if not ok_tr:
         tie_broken.append({"what": "translator", "detail": msg})
+    ok_ct, msg = D.step_chartable()
+    if not ok_ct and prop in D.CHARTABLE_PROPS:
+        ok_tr = False
+        tie_broken.append({"what": "character-table translator", "detail": msg})
     with D.Lock("coq"):
         bad = D.gate_sources()
         if bad:
